@@ -209,6 +209,10 @@ class SWorldMonitor:
         for fsid, f in o["F"]:
             if f.startswith("wu:") and fsid in self.rwin:
                 self.rwin[fsid] += int(f.split(":")[1])
+        if op.startswith("s.frame") and kind in ("half", "cancel") and sid in self.rwin:
+            # after its half-close (or cancel) the peer has nothing more to say: the receiver is closed, later data frames
+            # (a hostile peer's) are dropped without being buffered and do not count against the window
+            self.rwin.pop(sid, None)
         if op.startswith("s.frame") and kind in ("msg", "more") and sid in self.table and sid in self.rwin:
             n = int(k["len"])
             closed8 = any(s_ == sid and f.startswith("close:8") for s_, f in o["F"])
@@ -604,7 +608,12 @@ class CWorldMonitor:
                 elif r["complete_at_close"] != 1:
                     v.append(("C16", "unary-success-without-exactly-one-response", f"stream {dsid}: Invoke returned success although the peer sent "
                                                                                   f"{r['complete_at_close']} response message(s) before its OK close"))
-            if dop == "invoke" and not res.startswith("msg:") and r.get("by_close") and r["close"][0] == 0 and r.get("complete_at_close") == 1 \
+            if dop == "invoke" and res == "ctx:canceled" and r.get("by_close") and not r["flushed"] and not r["deadline"] and not r["cancelled"]:
+                # the peer closed the RPC while Invoke's SendMsg was still blocked on the flow-control window: the blocked send is
+                # released with the raw context error, and Invoke returns it instead of the status the peer sent (finding D12)
+                v.append(("C02", "status-lost-behind-blocked-send", f"stream {dsid}: the peer closed the RPC with code {r['close'][0]} while the request was "
+                                                                    f"still blocked on the window; Invoke returned a bare 'context canceled' instead of that status"))
+            elif dop == "invoke" and not res.startswith("msg:") and r.get("by_close") and r["close"][0] == 0 and r.get("complete_at_close") == 1 \
                     and not r["flushed"] and not r["deadline"] and not r["cancelled"]:
                 v.append(("C02", "error-result-for-successful-rpc", f"stream {dsid}: one response and an OK close, but Invoke returned {res}"))
             if dop == "invoke" and res == "" :
@@ -898,6 +907,7 @@ class LifecycleMonitor:
         self.step = 0
         self.before_shutdown = set()    # holds started before shutdown began
         self.hung = set()               # tunnels hung up by the peer
+        self.hol = set()                # revision zero: tunnels whose receive loop is blocked behind a non-reading handler
         self.finished_normally = set()
 
     def feed(self, op, line):
@@ -916,9 +926,14 @@ class LifecycleMonitor:
             v.append(("C10", "shutdown-does-not-refuse-new-rpcs", f"the server is {['active', 'closing', 'closed'][o['state']]} but tells its tunnels "
                                                                   f"NOT to refuse new RPCs (isClosing() = false) after `{op}`"))
         shutting = self.gstop_at is not None or self.stop_issued
+        if name == "l.hold" and not self.fc and k.get("stuck") == "1":
+            # revision zero: behind a handler that stopped reading the tunnel's receive loop is blocked in the hand-off, for good
+            # (even the caller's cancel frame queues behind it): nothing else on that tunnel is processed any more. That is
+            # what revision zero is (C03 promises independence only with flow control); its consequence for Stop is finding D10.
+            self.hol.add(int(k["t"]))
         if name == "l.hold":
             hid = int(k["h"])
-            if shutting:
+            if shutting and int(k["t"]) not in self.hol:
                 # C10: refused with Unavailable
                 h = o["holds"].get(hid)
                 if o["last"] == "new:ok" and (h is None or h["res"] != "status:14"):
@@ -926,12 +941,12 @@ class LifecycleMonitor:
             else:
                 self.before_shutdown.add(hid)
         if name == "l.rpc":
-            if shutting and int(k["t"]) in o["serves"] and o["serves"][int(k["t"])][:1] == ["run"] and o["last"] != "rpc:status:14":
+            if shutting and int(k["t"]) not in self.hol and int(k["t"]) in o["serves"] and o["serves"][int(k["t"])][:1] == ["run"] \
+                    and o["last"] != "rpc:status:14":
                 v.append(("C10", "rpc-accepted-during-shutdown", f"unary RPC after shutdown began: {o['last']}"))
             # revision zero has head-of-line blocking by design (C03 promises independence only with flow control): behind a
             # consumer that stopped reading the receive loop is blocked, and another RPC on that tunnel may time out
-            hol = (not self.fc) and any(h["tid"] == int(k["t"]) and h["kind"] == "stuck" and h["res"] in ("open", "")
-                                        for h in o["holds"].values())
+            hol = int(k["t"]) in self.hol
             if not shutting and int(k["t"]) not in self.hung and o["last"] != "rpc:ok" and not hol:
                 v.append(("C10", "rpc-fails-before-shutdown", f"unary RPC on an open tunnel failed: {o['last']}"))
         if name == "l.gstop":
@@ -944,7 +959,8 @@ class LifecycleMonitor:
             self.finished_normally.add(int(k["h"]))
             h = o["holds"].get(int(k["h"]))
             # C10: an RPC in flight when shutdown began runs to completion with the outcome it would have had
-            if h and h["res"] not in ("eof",) and h["tid"] not in self.hung and not self.stop_issued and h["res"] != "status:14":
+            if h and h["res"] not in ("eof",) and h["tid"] not in self.hung and h["tid"] not in self.hol and not self.stop_issued \
+                    and h["res"] != "status:14":
                 v.append(("C10", "in-flight-rpc-disturbed", f"hold {k['h']} finished with {h['res']} instead of OK"))
         if name == "l.serve" and shutting:
             t = int(k["t"])
